@@ -157,7 +157,8 @@ def load_corpus(prop):
 
 
 def describe(case, i=None):
-    d = {"definition": lexdef.rust_lexer(case.name, case.d), "case": lexdef.case_text(case.name, case.d, [])}
+    d = {"definition": lexdef.rust_lexer(case.name, case.d), "case": lexdef.case_text(case.name, case.d, []),
+         "definition_data": case.d}          # what `vcheck replay` rebuilds the lexer from
     if i is not None:
         ct, cps, cl = case.inputs[i]
         d.update({"input": cps, "input_text": "".join(chr(c) for c in cps), "constructor": ct, "clone_at": cl})
@@ -698,10 +699,31 @@ def check_determinism(ctx):
 
 
 def replay(path):
+    """Prints the recorded violation and, when it carries a definition and an input, runs both again on the
+    current tree: the reference semantics (extracted model) and the real macro + generated lexer. Exit 1 if
+    they still differ, 0 if they agree now (or if the replay names only a theorem / stage that no longer checks)."""
     data = json.load(open(path))
     print(json.dumps({k: data[k] for k in data if k in ("property", "key", "kind", "stage", "detail", "definition",
                                                          "input", "expected_by_spec", "observed")}, indent=1)[:6000])
-    return 0
+    if "definition_data" not in data or "input" not in data:
+        return 0
+    build_lexmodel()
+    d = untuple(data["definition_data"])
+    c = Case(0, d, [(data.get("constructor", 0), data["input"], data.get("clone_at"))])
+    run_model([c], artifacts=False)
+    run_impl([c], os.path.join(BUILD, "work_replay"))
+    shutil.rmtree(os.path.join(BUILD, "work_replay"), ignore_errors=True)
+    if c.compile_error is not None:
+        print("REPLAY: the definition does not compile on the current tree:\n" + c.compile_error[-1500:])
+        return 1
+    I = lines_of(c.impl_runs.get(0, []), "I")
+    S = c.model["runs"][0]["S"]
+    pj = data.get("projection") or "full"
+    same = PROJ[pj](I) == PROJ[pj](S) if pj in PROJ else I == S
+    print("REPLAY on the current tree (projection %s): %s" % (pj, "implementation and reference agree" if same else "STILL DIFFERENT"))
+    print("  reference     :", S[:12])
+    print("  implementation:", I[:12])
+    return 0 if same else 1
 
 
 CHECKS = {
